@@ -12,31 +12,21 @@ verus! {
 //@include prelude/crypto_types.rs
 //@include prelude/models_types.rs
 
+//@include contracts/metablock_specs.rs
+//@include contracts/stage_specs.rs
 // ---- C06 ----
 //@extract src/verifylib.rs fn:verify_layout_expiration props=C06
 //@contract ret=r
-    ensures
-        r is Ok ==> exists|now: int| chrono::clock_reading(now) && !(chrono::instant(layout.expires) < now),   // [C06]
-        r is Err ==> exists|now: int| chrono::clock_reading(now) && chrono::instant(layout.expires) < now,     // [C06]
+//@include contracts/verify_layout_expiration.rs
 //@end
 
 
 // ---- C07 ----
-// all verified links of a multi-party step report identical materials and identical products
-pub open spec fn step_agrees(step: Step, link_files: Map<String, HashMap<KeyId, LinkMetadata>>) -> bool {
-    link_files.contains_key(step.name)
-    && link_files[step.name]@.len() >= step.threshold
-    && forall|a: KeyId, b: KeyId| link_files[step.name]@.contains_key(a) && link_files[step.name]@.contains_key(b) ==>
-        link_files[step.name]@[a].materials == link_files[step.name]@[b].materials
-        && link_files[step.name]@[a].products == link_files[step.name]@[b].products
-}
 //@extract src/verifylib.rs fn:verify_threshold_constraints props=C07,C14
 //@uncontinue
 //@subst D16 /&key_link_per_step\[reference_keyid\]/ => key_link_per_step.get(reference_keyid).expect("no entry found for key")
 //@contract ret=r
-    ensures
-        r is Ok ==> forall|i: int| 0 <= i < layout.steps@.len() && (#[trigger] layout.steps@[i]).threshold >= 2 ==>
-            step_agrees(layout.steps@[i], link_files@),   // [C07]
+//@include contracts/threshold_constraints.rs
 //@before /for step in &layout\.steps/
     proof { fact_string_ext(); fact_keyid_key_model(); fact_artifact_map_eq(); }
 //@loop 1 iter=it1
